@@ -34,6 +34,9 @@ Model/Digest.vos Model/Digest.vok Model/Digest.required_vos: Model/Digest.v Base
 Model/Filter.vo Model/Filter.glob Model/Filter.v.beautified Model/Filter.required_vo: Model/Filter.v Base/Bytes.vo Base/Dec.vo Gen/Crc16.vo
 Model/Filter.vio: Model/Filter.v Base/Bytes.vio Base/Dec.vio Gen/Crc16.vio
 Model/Filter.vos Model/Filter.vok Model/Filter.required_vos: Model/Filter.v Base/Bytes.vos Base/Dec.vos Gen/Crc16.vos
+Model/Pipe.vo Model/Pipe.glob Model/Pipe.v.beautified Model/Pipe.required_vo: Model/Pipe.v Base/Bytes.vo Model/Backlog.vo
+Model/Pipe.vio: Model/Pipe.v Base/Bytes.vio Model/Backlog.vio
+Model/Pipe.vos Model/Pipe.vok Model/Pipe.required_vos: Model/Pipe.v Base/Bytes.vos Model/Backlog.vos
 Model/RespCodec.vo Model/RespCodec.glob Model/RespCodec.v.beautified Model/RespCodec.required_vo: Model/RespCodec.v Base/Bytes.vo Base/Dec.vo Gen/Resp.vo
 Model/RespCodec.vio: Model/RespCodec.v Base/Bytes.vio Base/Dec.vio Gen/Resp.vio
 Model/RespCodec.vos Model/RespCodec.vok Model/RespCodec.required_vos: Model/RespCodec.v Base/Bytes.vos Base/Dec.vos Gen/Resp.vos
@@ -55,6 +58,9 @@ Proofs/Crc64Proofs.vos Proofs/Crc64Proofs.vok Proofs/Crc64Proofs.required_vos: P
 Proofs/DigestProofs.vo Proofs/DigestProofs.glob Proofs/DigestProofs.v.beautified Proofs/DigestProofs.required_vo: Proofs/DigestProofs.v Base/Bytes.vo Base/Table.vo Base/Endian.vo Spec/Crc64.vo Gen/Crc64.vo Model/Digest.vo Proofs/Crc64Proofs.vo
 Proofs/DigestProofs.vio: Proofs/DigestProofs.v Base/Bytes.vio Base/Table.vio Base/Endian.vio Spec/Crc64.vio Gen/Crc64.vio Model/Digest.vio Proofs/Crc64Proofs.vio
 Proofs/DigestProofs.vos Proofs/DigestProofs.vok Proofs/DigestProofs.required_vos: Proofs/DigestProofs.v Base/Bytes.vos Base/Table.vos Base/Endian.vos Spec/Crc64.vos Gen/Crc64.vos Model/Digest.vos Proofs/Crc64Proofs.vos
+Proofs/PipeProofs.vo Proofs/PipeProofs.glob Proofs/PipeProofs.v.beautified Proofs/PipeProofs.required_vo: Proofs/PipeProofs.v Base/Bytes.vo Base/Table.vo Model/Backlog.vo Model/Pipe.vo Proofs/BacklogProofs.vo
+Proofs/PipeProofs.vio: Proofs/PipeProofs.v Base/Bytes.vio Base/Table.vio Model/Backlog.vio Model/Pipe.vio Proofs/BacklogProofs.vio
+Proofs/PipeProofs.vos Proofs/PipeProofs.vok Proofs/PipeProofs.required_vos: Proofs/PipeProofs.v Base/Bytes.vos Base/Table.vos Model/Backlog.vos Model/Pipe.vos Proofs/BacklogProofs.vos
 Proofs/RespProofs.vo Proofs/RespProofs.glob Proofs/RespProofs.v.beautified Proofs/RespProofs.required_vo: Proofs/RespProofs.v Base/Bytes.vo Base/Dec.vo Gen/Resp.vo Model/RespCodec.vo
 Proofs/RespProofs.vio: Proofs/RespProofs.v Base/Bytes.vio Base/Dec.vio Gen/Resp.vio Model/RespCodec.vio
 Proofs/RespProofs.vos Proofs/RespProofs.vok Proofs/RespProofs.required_vos: Proofs/RespProofs.v Base/Bytes.vos Base/Dec.vos Gen/Resp.vos Model/RespCodec.vos
@@ -67,6 +73,9 @@ Proofs/SlotWitness.vos Proofs/SlotWitness.vok Proofs/SlotWitness.required_vos: P
 Proofs/SlotWitnessCheck.vo Proofs/SlotWitnessCheck.glob Proofs/SlotWitnessCheck.v.beautified Proofs/SlotWitnessCheck.required_vo: Proofs/SlotWitnessCheck.v Base/Bytes.vo Base/Dec.vo Spec/Crc16.vo Spec/Slot.vo Gen/Crc16.vo Model/SlotKeys.vo Proofs/SlotWitness.vo
 Proofs/SlotWitnessCheck.vio: Proofs/SlotWitnessCheck.v Base/Bytes.vio Base/Dec.vio Spec/Crc16.vio Spec/Slot.vio Gen/Crc16.vio Model/SlotKeys.vio Proofs/SlotWitness.vio
 Proofs/SlotWitnessCheck.vos Proofs/SlotWitnessCheck.vok Proofs/SlotWitnessCheck.required_vos: Proofs/SlotWitnessCheck.v Base/Bytes.vos Base/Dec.vos Spec/Crc16.vos Spec/Slot.vos Gen/Crc16.vos Model/SlotKeys.vos Proofs/SlotWitness.vos
+Props/C09.vo Props/C09.glob Props/C09.v.beautified Props/C09.required_vo: Props/C09.v Base/Bytes.vo Model/Backlog.vo Model/Pipe.vo Proofs/PipeProofs.vo
+Props/C09.vio: Props/C09.v Base/Bytes.vio Model/Backlog.vio Model/Pipe.vio Proofs/PipeProofs.vio
+Props/C09.vos Props/C09.vok Props/C09.required_vos: Props/C09.v Base/Bytes.vos Model/Backlog.vos Model/Pipe.vos Proofs/PipeProofs.vos
 Props/C10.vo Props/C10.glob Props/C10.v.beautified Props/C10.required_vo: Props/C10.v Base/Bytes.vo Base/Dec.vo Gen/Resp.vo Model/RespCodec.vo Proofs/RespProofs.vo
 Props/C10.vio: Props/C10.v Base/Bytes.vio Base/Dec.vio Gen/Resp.vio Model/RespCodec.vio Proofs/RespProofs.vio
 Props/C10.vos Props/C10.vok Props/C10.required_vos: Props/C10.v Base/Bytes.vos Base/Dec.vos Gen/Resp.vos Model/RespCodec.vos Proofs/RespProofs.vos
